@@ -536,7 +536,7 @@ def worker(variant, ops_path, trace_path, viol_path, start, status_path):
         sys.exit(3)
     hs = read_histories(ops_path)
     sfd = os.open(status_path, os.O_WRONLY | os.O_CREAT | os.O_TRUNC)
-    with open(trace_path, "a") as tf, open(viol_path, "a") as vf:
+    with open(trace_path if trace_path != "-" else os.devnull, "a") as tf, open(viol_path, "a") as vf:
         for idx in range(start, len(hs)):
             h = hs[idx]
             hid = h[0].split()[1]
@@ -576,10 +576,11 @@ def run_pass(variant, ops_path, trace_path, viol_path, oracle_filter=None):
     """runs all histories in worker subprocesses; survives crashes.  oracle_filter: keep only
        VIOL lines for which it returns True (used by the extra passes)."""
     hs = read_histories(ops_path)
-    open(trace_path, "w").close()
+    if trace_path != "-":
+        open(trace_path, "w").close()
     tmp_viol = viol_path + "." + variant
     open(tmp_viol, "w").close()
-    status_path = trace_path + ".status"
+    status_path = viol_path + "." + variant + ".status"
     env = dict(os.environ)
     env.pop("C_HARNESS_ASAN", None)
     env.pop("C_HARNESS_PLAIN", None)
@@ -632,8 +633,9 @@ def run_pass(variant, ops_path, trace_path, viol_path, oracle_filter=None):
                 summ = [l for l in err.splitlines() if "ERROR: AddressSanitizer" in l or l.startswith("SUMMARY:")]
                 what += " ASan: " + " | ".join(s.strip() for s in summ[:2])[:300]
         extra.append("VIOL %s %s %s %s [%s build, embedding %s]" % (prop, hid, step, what, variant, hs[idx][0].split()[2]))
-        with open(trace_path, "a") as tf:
-            tf.write(hs[idx][0] + "\nX %s %s %s\n" % (hid, step, what))
+        if trace_path != "-":
+            with open(trace_path, "a") as tf:
+                tf.write(hs[idx][0] + "\nX %s %s %s\n" % (hid, step, what))
         start = idx + 1
     lines = [l.rstrip("\n") for l in open(tmp_viol)] + extra
     os.remove(tmp_viol)
@@ -672,13 +674,13 @@ def main(argv):
     if rc:
         return rc
     if os.environ.get("C_HARNESS_PLAIN") == "1":
-        rc = run_pass("plain", ops_path, trace_path + ".plain", viol_path,
+        rc = run_pass("plain", ops_path, "-", viol_path,
                       lambda l: True)
         if rc:
             return rc
     if os.environ.get("C_HARNESS_ASAN") == "1":
         # the oracles already ran on the hook build; keep what only this pass can see
-        rc = run_pass("asan", ops_path, trace_path + ".asan", viol_path,
+        rc = run_pass("asan", ops_path, "-", viol_path,
                       lambda l: "crashed" in l)
         if rc:
             return rc
